@@ -177,6 +177,7 @@ func CallN(name string, a ...Expr) *Call { return &Call{Callee: Id(name), Args: 
 type DumpOpt struct {
 	StripGroups bool
 	SortKeys    bool
+	NilCondTrue bool // a missing for-condition is shown as `true`
 }
 
 func DumpProgram(p []Stmt, o DumpOpt) string {
@@ -251,7 +252,9 @@ func dumpStmt(b *strings.Builder, s Stmt, o DumpOpt) {
 			dumpStmt(b, s.Init, o)
 		}
 		b.WriteString(" ")
-		if s.Cond == nil {
+		if s.Cond == nil && o.NilCondTrue {
+			b.WriteString("true")
+		} else if s.Cond == nil {
 			b.WriteString("_")
 		} else {
 			dumpExpr(b, s.Cond, o)
